@@ -598,6 +598,92 @@ def check_mixed_classes(order, how):
     return out
 
 
+def check_two_views(order):
+    """Two store files with different problem definitions, both opened by read-mode views that stay alive: each view keeps
+    returning ITS file's definitions and individuals, whichever was opened later."""
+    import atexit
+    from .c_support import make_problem, reset_ids
+    from artap.datastore import SqliteDataStore
+    from artap.individual import Individual
+    from artap.problem import ProblemViewDataStore
+    reset_ids()
+    specs = [dict(n_params=2, bounds=[[0.0, 1.0], [-2.0, 2.0]], criteria=["minimize", "maximize"], param_names=["x_1", "x_2"]),
+             dict(n_params=3, bounds=[[1.0, 2.0], [3.0, 4.0], [5.0, 6.0]], criteria=["maximize"], param_names=["width", "height", "length"])]
+    files = []
+    for k, spec in enumerate(specs):
+        problem = make_problem(name="problem %d" % k, **spec)
+        db = fresh_db("c10views%d" % k)
+        store = SqliteDataStore(problem, database_name=db)
+        for j in range(2 + k):
+            ind = Individual([b[0] + 0.1 * j for b in spec["bounds"]])
+            ind.costs = [float(10 * k + j)] * len(spec["criteria"])
+            problem.individuals.append(ind)
+        store.sync_all()
+        store.destroy()
+        files.append((db, problem))
+    out = []
+    views = {}
+    try:
+        for k in order:
+            v = ProblemViewDataStore(database_name=files[k][0])
+            atexit.unregister(v.cleanup)
+            views[k] = v
+        for k, v in views.items():
+            want = files[k][1]
+            if v.name != want.name or norm(v.parameters) != norm(want.parameters) or norm(v.costs) != norm(want.costs):
+                out.append(("C10:two-views:definitions-of-another-file", "views opened in the order %r: the view of file %d reports name %r, parameters %r, costs %r" % (
+                    order, k, v.name, [p.get("name") for p in v.parameters], [c.get("name") for c in v.costs])))
+            if [norm(list(i.vector)) for i in v.individuals] != [norm(list(i.vector)) for i in want.individuals]:
+                out.append(("C10:two-views:individuals-of-another-file", "views opened in the order %r: the view of file %d holds vectors %r" % (order, k, [list(i.vector) for i in v.individuals])))
+    except Exception as e:
+        out.append(("C10:two-views:exception:%s" % type(e).__name__, "order %r raised %r" % (order, e)))
+    for v in views.values():
+        try:
+            v.data_store.destroy()
+        except Exception:
+            pass
+    return out
+
+
+def check_big_store(n, variant):
+    """Stores with many individuals: single synchronisations, changes in memory, sync_all - every recorded individual's row
+    holds its last synchronised data."""
+    from .c_support import make_problem, reset_ids
+    from artap.datastore import SqliteDataStore, DummyDataStore
+    from artap.individual import Individual
+    reset_ids()
+    problem = make_problem(n_params=2, bounds=[[0.0, 1.0]] * 2, criteria=["minimize", "maximize"])
+    db = fresh_db("c10big")
+    store = SqliteDataStore(problem, database_name=db) if variant != "nts" else SqliteDataStore(problem, database_name=db, thread_safe=False)
+    problem.data_store = store
+    desc = "store with %d individuals (%s)" % (n, variant)
+    try:
+        for k in range(n):
+            ind = Individual([k / float(n), 0.5])
+            ind.costs = [float(k), 1.0 / (k + 1)]
+            ind.costs_signed = [float(k), -1.0 / (k + 1), True]
+            ind.population_id = k % 7
+            problem.individuals.append(ind)
+            if k % 3 == 0:
+                store.sync_individual(ind)
+        store.sync_all()
+        for k, ind in enumerate(problem.individuals):       # results change in memory, then everything is synchronised again
+            ind.population_id = 100 + k % 5
+            ind.costs = [float(k) + 0.25, 2.0]
+        store.sync_all()
+    except Exception as e:
+        return [("C10:big-store:exception:%s" % type(e).__name__, "%s raised %r" % (desc, e))]
+    problem.data_store = DummyDataStore()
+    out = [(k.replace("C10:", "C10:big-store:", 1), m[:300]) for k, m in observe_all(problem, db, desc)]
+    if len(read_rows(db)) != n:
+        out.append(("C10:big-store:row-count", "%s: %d rows" % (desc, len(read_rows(db)))))
+    try:
+        store.destroy()
+    except Exception:
+        pass
+    return out
+
+
 def check_sessions(name, seed, sessions=2):
     """Several sessions on ONE store file, each in a fresh interpreter as far as the id counter goes (it restarts at 0):
     a session opens the existing file in write mode (which loads it) and runs the algorithm. Afterwards every individual
@@ -704,12 +790,26 @@ def _shard(shard, col: Collector):
                     col.violation(key.replace("C10:", "C10:locked:", 1) if not key.startswith("C10:locked") else key, "history", msg,
                                   {"history": hist, "variant": variant})
         col.sample({"kind": "synchronisation under a foreign lock", "variant": variant, "locked_answers": [1, 8, 60]}, 1)
+    elif kind == "twoviews":
+        for order in ((0, 1), (1, 0), (0, 1, 0), (1, 0, 1), (0, 0, 1)):
+            col.case()
+            col.nontrivial(("twoviews", order))
+            for key, msg in check_two_views(order):
+                col.violation(key, "twoviews", msg, {"order": order})
+        col.sample({"kind": "two read-mode views alive at once", "orders": [[0, 1], [1, 0]]}, 1)
+    elif kind == "bigstore":
+        _, n, variant = shard
+        col.case()
+        col.nontrivial(("bigstore", n, variant))
+        for key, msg in check_big_store(n, variant):
+            col.violation(key, "bigstore", msg, {"n": n, "variant": variant})
+        col.sample({"kind": "store with many individuals", "n": n}, 1)
     elif kind == "mixed":
         import itertools as _it
         classes = ("Individual", "IndividualNSGAII", "IndividualEpsMOEA", "IndividualSwarm")
         for n in (2, 3, 4):
             for order in _it.product(classes, repeat=n):
-                if len(set(order)) < 2:
+                if len(set(order)) < 2 or (n == 4 and len(set(order)) < 4):
                     continue
                 for how in ("each", "all"):
                     col.case()
@@ -749,6 +849,10 @@ def replay(sub, case):
         return check_two_stores(tt(case["h1"]), tt(case["h2"]))
     if sub == "run":
         return check_run(case["name"], case["seed"])
+    if sub == "twoviews":
+        return check_two_views(tuple(case["order"]))
+    if sub == "bigstore":
+        return check_big_store(case["n"], case["variant"])
     if sub == "mixed":
         return check_mixed_classes(tuple(case["order"]), case["how"])
     if sub == "sessions":
@@ -771,6 +875,10 @@ def run(tier, seed):
     for variant in ("float", "nts"):
         shards.append(("locked", variant))
     shards.append(("mixed",))
+    shards.append(("twoviews",))
+    for n in (100, 257, 512, 513, 600, 1000, 1001, 1025, 1200) + ((2049, 5000) if tier == "thorough" else ()):
+        shards.append(("bigstore", n, "float"))
+    shards.append(("bigstore", 700, "nts"))
     for name in ("NSGAII", "EpsMOEA", "SMPSO", "Sweep"):
         for n in (2, 3):
             shards.append(("sessions", name, seed, n))
